@@ -32,12 +32,7 @@ package io
 
 //@ func ext (github.com/ipfs/go-cid.Cid).Bytes
 //@   ensures len(result) == cidByteLen(c)
-//@ func ext (time.Time).IsZero
-//@   ensures result == timeIsZero(t)
-//@ func ext (time.Time).Unix
-//@   ensures result == timeUnix(t)
-//@ func ext (time.Time).Nanosecond
-//@   ensures result == timeNanos(t)
+// (time.Time).IsZero/Unix/Nanosecond: assumed contracts in ipld/unixfs/zz_verif_contracts.go
 
 //@ func varintLen
 //@   prop C17
